@@ -187,7 +187,8 @@ def eval_backward(case, rec):
     direct = False
     for r in recips:
         if r['t'] == 'key':
-            esks += wire.build_packet(1, enc.pkesk_build(keypool.ref_public(r['kid']), cipher, session))
+            # ECDH: RFC 6637 section 8 lets the sender pad beyond the next multiple of 8 (GnuPG pads to 40 octets)
+            esks += wire.build_packet(1, enc.pkesk_build(keypool.ref_public(r['kid']), cipher, session, pad_to=[None, 40, 48, None][b.get('skc', 0) % 4]))
         else:
             spec_ = rs2k.Spec(b['s2k'], r['h'], b'\x01\x02\x03\x04\x05\x06\x07\x08', b['count'] if b['s2k'] == 'iterated' else None)
             if not b['esk'] and len(recips) == 1:
